@@ -72,3 +72,13 @@ CLAIMED["C04"] = (
     "parse, BootImageV2x.export/parse and the remaining command classes are NOT under contract (bounded round trips only); known finding C04-KF1: "
     "BootImageV21.parse reads only the first boot section.",
     "DESIGN.md 7 C04")
+CLAIMED["C05"] = (
+    "SecureBinary31Header.export (every header field as the loader's struct reads it), SecureBinary31Header.update (total length of block 0 "
+    "recomputed from scratch: independent of the export history), get_cmd_blocks_to_export (ceil(len/256) blocks of exactly 256 bytes that "
+    "concatenate to section header || commands followed by zero padding only — stream ends at every offset mod 256), _process_block and "
+    "process_cmd_blocks_to_export (block numbers, block i carries the hash of block i+1, the last block carries zeros also on a second export, "
+    "final hash = hash of block 1, payloads in order) are discharged for 1..3 data blocks with symbolic contents; the KDF is proved in C09.",
+    "Trusted: hash / AES-CBC as uninterpreted functions (A-crypto-fun), A-enc, A-smt, A-struct. Commands are abstract (their own export "
+    "formats are not under contract here), block counts > 3, the certificate block (C03) and SecureBinary31.export as a whole are covered by the "
+    "bounded independent-loader walk over the repository's example configurations only.",
+    "DESIGN.md 7 C05")
